@@ -188,7 +188,7 @@ PROPS = {
              "(known finding D20 otherwise); non-trivial = >=2 answers; distinct = distinct case lines",
         trusted=SEARCH_TRUST,
         assumptions=[],
-        open=["soundness, completeness (all six recursive relations and cons/first/rest/empty, every mode) and the multiplicities of member / member1 are proved (C24Sem, C24Count, C24First); the multiplicities of append / rember / permute / distinct are carried by the correspondence and the Vec-based oracle; every theorem carries the FUEL caveat of the model"],
+        open=["soundness, completeness (all six recursive relations and cons/first/rest/empty, every mode) the multiplicities of member / member1 and the functional mode of append (first argument of known length: at most one answer, C24_append_functional) are proved (C24Sem, C24Count, C24First); the multiplicities of the enumerating modes of append and of rember / permute / distinct are carried by the correspondence and the Vec-based oracle; every theorem carries the FUEL caveat of the model"],
     ),
     "C20": dict(
         title="compound terms (unification, disequality, reification, FD labelling)",
